@@ -1,6 +1,7 @@
 //! ippsim — deterministic simulation with fault injection for ancwrd1/ipp.rs.
 //! usage: ippsim check <ID> <quick|thorough> | ippsim replay <ID> <file> | ippsim selfcheck <ID>...
 
+mod damage;
 mod drive;
 mod exec;
 mod framework;
@@ -28,8 +29,20 @@ fn env_u64(name: &str) -> Option<u64> {
 macro_rules! with_prop {
     ($id:expr, $p:ident => $body:expr) => {
         match $id {
+            "C05" => {
+                let $p = props::c05::C05;
+                $body
+            }
             "C06" => {
                 let $p = props::c06::C06;
+                $body
+            }
+            "C07" => {
+                let $p = props::c07::C07;
+                $body
+            }
+            "C08" => {
+                let $p = props::c08::C08;
                 $body
             }
             other => {
